@@ -285,7 +285,43 @@ func (n *crashNode) importBlock(k *kernel.K, fb *fBlock) {
 		k.Stop()
 	}
 	// order of dot/core handleBlock: StoreTrie, AddBlock, HandleDigests, ApplyForcedChanges
-	if err := n.ss.StoreTrie(ts, fb.rb.Header); err != nil {
+	if k.Bool(1, 8, "trie-write-fails-once") {
+		// the disk refuses the trie batch once (nothing of it is stored); the import fails before the
+		// block is added, the process lives on and the same block is imported again later, executed
+		// afresh on its parent's state
+		n.disk.OnWrite = func(rec *simdisk.Record) (error, bool) {
+			n.disk.OnWrite = nil
+			return simdisk.ErrInjectedWrite, false
+		}
+		err := n.ss.StoreTrie(ts, fb.rb.Header)
+		refused := n.disk.OnWrite == nil
+		n.disk.OnWrite = nil
+		if refused {
+			k.Fault("write-error")
+			if err == nil {
+				k.Probe("store-trie-swallowed-a-write-error")
+			}
+			k.Event("import-failed", "%s: StoreTrie: %v; imported again", cu.Short(fb.rb.Hash), err)
+			if ts, err = n.ss.TrieState(&proot); err != nil {
+				k.Violate("C36", "scenario", "parent-state-not-available", "TrieState(parent) failed on the second import: %v", err)
+			}
+			ts.SetVersion(trie.V0)
+			ts.StartTransaction()
+			for _, p := range fb.puts {
+				ts.Put(p[0], p[1])
+			}
+			if root, err := ts.Root(); err != nil || root != fb.rb.Header.StateRoot { // Root commits the transaction
+				k.Violate("C01", "root", "block-state-root-differs-from-spec", "second import: state root %s, spec %s (%v)", root, fb.rb.Header.StateRoot, err)
+				k.Stop()
+			}
+			if err := n.ss.StoreTrie(ts, fb.rb.Header); err != nil {
+				panic(err)
+			}
+			k.Probe("block-imported-again-after-a-failed-trie-write")
+		} else if err != nil {
+			panic(err)
+		}
+	} else if err := n.ss.StoreTrie(ts, fb.rb.Header); err != nil {
 		panic(err)
 	}
 	if err := n.bs.AddBlock(&types.Block{Header: *fb.rb.Header, Body: *types.NewBody([]types.Extrinsic{})}); err != nil {
